@@ -1,6 +1,6 @@
 """Claim texts for MANIFEST.json (tools/gen_manifest.py writes the file)."""
 
-REPO_FIX_COMMITS = ["d6b93bf (C15)", "bf9879b (C18)", "00db926 (C17)", "69cf7c1 (C14)", "6437988 (C11)", "98f4235 (C11)", "997be27 (C12)", "fbe6454 (C02)", "17a33b1 (C01)", "bcface1 (C01)", "7c09e08 (C08)", "d75f5c1 (C05)", "66c726b (C05,C09)", "cd30f54 (C06)", "a1bd023 (C06)", "41fa818 (C07)", "9927cea (C07)", "4b8e704 (C07)", "3f4bb24 (C19)", "303540a (C20)", "57b784c (C09)", "4002539 (C03)", "4635a16 (C04,C05)", "95a90b5 (C04)"]
+REPO_FIX_COMMITS = ["d6b93bf (C15)", "bf9879b (C18)", "00db926 (C17)", "69cf7c1 (C14)", "6437988 (C11)", "98f4235 (C11)", "997be27 (C12)", "fbe6454 (C02)", "17a33b1 (C01)", "bcface1 (C01)", "7c09e08 (C08)", "d75f5c1 (C05)", "66c726b (C05,C09)", "cd30f54 (C06)", "a1bd023 (C06)", "41fa818 (C07)", "9927cea (C07)", "4b8e704 (C07)", "3f4bb24 (C19)", "303540a (C20)", "57b784c (C09)", "4002539 (C03)", "4635a16 (C04,C05)", "95a90b5 (C04)", "e6a6563 (C20)"]
 
 _PENDING = "checker for this property is not built yet in this round (see DESIGN.md section 3 for the planned rule)"
 
